@@ -36,7 +36,8 @@ Print Assumptions C01_result_points_on_grid.
    and window the engine (sharded, batched selectors feeding the join with its
    reused table) produces one vector of samples per grid step, and at every
    step at which the reference engine's VectorBinop succeeds on the reference
-   instant selections the engine's samples are exactly the reference's.
+   instant selections the engine's samples are a permutation of the reference's
+   (same label sets, same values, same multiplicities).
    Hypothesis: distinct signatures among the "one" side's series (F20 otherwise). *)
 Theorem C01_binary_over_selectors :
   forall (op : Z -> Z -> Z * bool) (b2v : bool -> Z) (on : bool) (ml incl : list N) (c : Bin.card)
@@ -54,7 +55,7 @@ Theorem C01_binary_over_selectors :
     forall t out, In (t, out) outs ->
       forall ref_out,
         EndToEnd.reference_binary op b2v on ml incl c return_bool op_drops_name llabels rlabels lsers rsers loff roff (c_lookback cf) t = Some ref_out ->
-        forall m v, In (m, v) out <-> In (m, v) ref_out.
+        Permutation.Permutation out ref_out.
 Proof. exact EndToEnd.binary_over_selectors_matches_reference. Qed.
 Print Assumptions C01_binary_over_selectors.
 
